@@ -179,7 +179,89 @@ struct TupleTarget : Target {
     }
 };
 
+// ---- converting construction / assignment between tuples of DIFFERENT element-type lists -------------------------------
+// destination element I is long (even I) or double (odd I); the source tuple holds int / float: every value used is exactly
+// representable in both, so the std::tuple model (same conversions) must agree bit for bit.
+template <size_t I> using dst_elem_t = std::conditional_t<I % 2 == 0, long, double>;
+template <size_t I> using src_elem_t = std::conditional_t<I % 2 == 0, int, float>;
+template <template <class...> class TUP, class Seq> struct conv_types;
+template <template <class...> class TUP, size_t... I> struct conv_types<TUP, std::index_sequence<I...>> {
+    using dst = TUP<dst_elem_t<I>...>; using src = TUP<src_elem_t<I>...>; using model = std::tuple<dst_elem_t<I>...>; using msrc = std::tuple<src_elem_t<I>...>;
+};
+
+template <template <class...> class TUP, size_t N>
+struct ConvTupleTarget : Target {
+    using CT = conv_types<TUP, std::make_index_sequence<N>>;
+    using R = typename CT::dst; using S = typename CT::src; using M = typename CT::model; using MS = typename CT::msrc;
+    std::string nm;
+    explicit ConvTupleTarget(const char* tupname) : nm(std::string(tupname) + "<conv," + std::to_string(N) + ">") { static_assert(sizeof(R) <= SLOTB); }
+    std::string name() const override { return nm; }
+    void gen_steps(Plan& p, Rng& r, const std::string& tier) override {
+        gen_history(p, r, tier, {"ctor_default", "ctor_values", "convert_ctor", "copy", "assign", "convert_assign", "write", "read", "destroy"}, {2, 3, 5, 3, 4, 6, 6, 2, 2}, 4);
+    }
+    Env* env = nullptr; M model[NOBJ]; long nobj = 1;
+    R* obj(long i) { return reinterpret_cast<R*>(env->slots.at((size_t)i)); }
+    bool live(long i) { return env->slots.live[i]; }
+    template <size_t I> static src_elem_t<I> sval(long k) { if constexpr (I % 2 == 0) return (int)(k * 8 + (long)I); else return (float)k + (float)I * 0.125f; }
+    template <size_t... I> static S make_src(long k, std::index_sequence<I...>) { return S(sval<I>(k)...); }
+    template <size_t... I> static MS make_msrc(long k, std::index_sequence<I...>) { return MS(sval<I>(k)...); }
+    template <size_t... I> static M convert_model(const MS& s, std::index_sequence<I...>) { return M((dst_elem_t<I>)std::get<I>(s)...); }
+    template <size_t I> void write_one(long o, long k) { dst_elem_t<I> v = (dst_elem_t<I>)sval<I>(k); utl::get<I>(*obj(o)) = v; std::get<I>(model[o]) = v; }
+    template <size_t... I> void write_at(long o, long i, long k, std::index_sequence<I...>) { ((i == (long)I ? write_one<I>(o, k) : (void)0), ...); }
+    template <size_t I> bool equal_one(long o, std::string& why) {
+        const R& r = *obj(o); auto got = utl::get<I>(r);
+        if (std::memcmp(&got, &std::get<I>(model[o]), sizeof(got)) != 0) { why = "get<" + std::to_string(I) + "> = " + show(got) + ", std::tuple holds " + show(std::get<I>(model[o])); return false; }
+        return true;
+    }
+    template <size_t... I> bool equal_all(long o, std::string& why, std::index_sequence<I...>) { return (equal_one<I>(o, why) && ...); }
+    template <size_t... I> void construct_values(long o, long k, std::index_sequence<I...>) { new (obj(o)) R((dst_elem_t<I>)sval<I>(k)...); model[o] = M((dst_elem_t<I>)sval<I>(k)...); }
+
+    void run(const Plan& p, Env& e) override {
+        env = &e; cur_env() = &e;
+        nobj = p.geti("nobj", 1); if (nobj < 1) nobj = 1; if (nobj > (long)NOBJ) nobj = NOBJ;
+        for (auto& m : model) m = M();
+        size_t k = 0;
+        for (auto& st : p.steps) {
+            env->begin_step(st.op);
+            if (apply(st)) { check_all(k); env->heap_check(); }
+            if (verdict().failed()) break;
+            k++;
+        }
+        if (!verdict().failed()) { for (long o = 0; o < (long)NOBJ; o++) if (live(o)) { obj(o)->~R(); env->slots.kill((size_t)o); } env->begin_step("end"); env->heap_check(); env->final_leak_check(); }
+    }
+    bool apply(const Step& st) {
+        long o = st.arg(0) % nobj, src = st.arg(1) % nobj, n = st.arg(2); if (o < 0) o = 0; if (src < 0) src = 0; if (n < 0) n = 0;
+        const std::string& op = st.op; std::string on = "o" + std::to_string(o); auto seq = std::make_index_sequence<N>{};
+        if (op == "ctor_default") { if (live(o)) return false; new (obj(o)) R(); env->slots.live[o] = true; model[o] = M(); env->applied(op, on, true); return true; }
+        if (op == "ctor_values") { if (live(o)) return false; construct_values(o, env->next_value(), seq); env->slots.live[o] = true; env->applied(op, on, true); return true; }
+        if (op == "convert_ctor") {   // R(const TUP<other element types...>&)
+            if (live(o)) return false; long k = env->next_value();
+            S s = make_src(k, seq); new (obj(o)) R(s); env->slots.live[o] = true; model[o] = convert_model(make_msrc(k, seq), seq);
+            env->applied(op, on, true); env->interesting = true; return true;
+        }
+        if (op == "copy") { if (live(o) || !live(src) || src == o) return false; new (obj(o)) R(*obj(src)); env->slots.live[o] = true; model[o] = model[src]; env->applied(op, on + "<-o" + std::to_string(src), true); env->interesting = true; return true; }
+        if (!live(o)) return false;
+        if (op == "assign") { if (!live(src)) return false; *obj(o) = *obj(src); { M tmp = model[src]; model[o] = tmp; } env->applied(op, on + "<-o" + std::to_string(src), true); env->interesting = true; return true; }
+        if (op == "convert_assign") {   // assign-from(other) where the other tuple has a different element-type list
+            long k = env->next_value(); S s = make_src(k, seq); *obj(o) = R(s); model[o] = convert_model(make_msrc(k, seq), seq);
+            env->applied(op, on, true); env->interesting = true; return true;
+        }
+        if (op == "write") { long i = n % (long)N; write_at(o, i, env->next_value(), seq); env->applied(op, on + " i=" + std::to_string(i), true); return true; }
+        if (op == "read") { env->applied(op, on, false); return true; }
+        if (op == "destroy") { obj(o)->~R(); env->slots.kill((size_t)o); model[o] = M(); env->applied(op, on, true); return true; }
+        return false;
+    }
+    void check_all(size_t stepno) {
+        if (verdict().failed()) return;
+        for (long o = 0; o < (long)NOBJ; o++) {
+            if (!live(o)) continue; std::string why;
+            if (!equal_all(o, why, std::make_index_sequence<N>{})) { env->violation("CONTENT", nm + " o" + std::to_string(o) + " after step " + std::to_string(stepno) + " (" + env->cur_op + "): " + why); return; }
+        }
+    }
+};
+
 #define REG(T, NAME, ...) static T t_##NAME __VA_ARGS__; static Registrar r_##NAME(&t_##NAME);
+#define CONV(N) using c1_##N = ConvTupleTarget<utl::tuple, N>; REG(c1_##N, c1_##N, {"utl::tuple"}) using c2_##N = ConvTupleTarget<utl::tuplev2, N>; REG(c2_##N, c2_##N, {"utl::tuplev2"})
 using arr3 = utl::array<int, 3>; using uvec = utl::vector<int>;
 using a_i1 = ArrayTarget<int, 1>; REG(a_i1, a_i1)
 using a_i3 = ArrayTarget<int, 3>; REG(a_i3, a_i3)
@@ -190,5 +272,6 @@ using t1_c = TupleTarget<utl::tuple, tracked, int>; REG(t1_c, t1_c, {"utl::tuple
 using t2_a = TupleTarget<utl::tuplev2, int, double, arr3>; REG(t2_a, t2_a, {"utl::tuplev2"})
 using t2_b = TupleTarget<utl::tuplev2, int, uvec, tracked>; REG(t2_b, t2_b, {"utl::tuplev2"})
 using t2_c = TupleTarget<utl::tuplev2, tracked, int>; REG(t2_c, t2_c, {"utl::tuplev2"})
+CONV(2) CONV(3) CONV(4) CONV(5) CONV(6) CONV(8)
 
 } // namespace c19
